@@ -17,6 +17,8 @@ CONT_TEMPLATES = [
     [{"op": "delete", "rel": True, "reldel": "head1"}, {"op": "store", "rel": True, "n": 2, "sz": [1, 1]}],
     [{"op": "set", "key": 1, "val": 3}, {"op": "store", "rel": True, "n": 1, "sz": [1]}, {"op": "getk", "key": 1}],
     [{"op": "delete", "rel": True, "reldel": "all"}, {"op": "store", "rel": True, "n": 1, "sz": [1]}],
+    # the caller's usual reaction to a failed append: the same indexes again (fault family; elsewhere a plain append)
+    [{"op": "retry"}, {"op": "store", "rel": True, "n": 1, "sz": [1]}],
 ]
 
 
